@@ -45,6 +45,11 @@ pub fn gen_case(seed: u64, run: u64, faults: bool) -> Case {
     for _ in 0..n_parsers {
         parsers.push(valid_opts(&mut r, &sw));
     }
+    // one run in 400 works on a very large definition
+    let big = r.chance(1, 400);
+    if big {
+        parsers[0] = big_opts(&mut r);
+    }
     let mut env: Vec<(Tok, Tok)> = Vec::new();
     for o in &parsers {
         for name in o.declared_envs() {
@@ -182,6 +187,69 @@ pub fn gen_case(seed: u64, run: u64, faults: bool) -> Case {
 }
 
 /// draw definitions until one passes `check_invariants`
+/// a definition with hundreds of documented items (6 x 6 x 6 switches at the top level and again
+/// inside a command): sizes that the ordinary generator, bounded at six fields per group, never
+/// reaches - a manual page of more than 64 KiB, long help screens, wide short-name tables
+pub fn big_opts(r: &mut Rng) -> Opts {
+    use crate::shape::{intern, Named, Shape};
+    let help = gen::TEXTS[1];
+    let mut n = 0usize;
+    let mut cube = |r: &mut Rng| -> Shape {
+        let mut l1 = Vec::new();
+        for _ in 0..6 {
+            let mut l2 = Vec::new();
+            for _ in 0..6 {
+                let mut l3 = Vec::new();
+                for _ in 0..6 {
+                    n += 1;
+                    let named = Named {
+                        shorts: vec![],
+                        longs: vec![intern(&format!("opt-{}", n))],
+                        envs: vec![],
+                        help: Some(help),
+                    };
+                    l3.push(if r.chance(1, 2) {
+                        Shape::Switch(named)
+                    } else {
+                        Shape::Wrap(
+                            crate::shape::W::Optional { catch: false },
+                            Box::new(Shape::Arg {
+                                named,
+                                metavar: "VAL",
+                                ty: crate::shape::Ty::Str,
+                                adjacent: false,
+                            }),
+                        )
+                    });
+                }
+                l2.push(Shape::Seq(l3, false));
+            }
+            l1.push(Shape::Seq(l2, false));
+        }
+        Shape::Seq(l1, false)
+    };
+    let inner = cube(r);
+    let cmd = Shape::Cmd {
+        name: "big",
+        shorts: vec![],
+        longs: vec![],
+        help: Some(help),
+        adjacent: false,
+        opts: Box::new(Opts::plain(inner)),
+    };
+    let top = cube(r);
+    let mut o = Opts::plain(Shape::Seq(
+        vec![
+            top,
+            Shape::Wrap(crate::shape::W::Optional { catch: false }, Box::new(cmd)),
+        ],
+        false,
+    ));
+    o.descr = Some(help);
+    o.version = Some("1.2.3");
+    o
+}
+
 pub fn valid_opts(r: &mut Rng, sw: &Swarm) -> Opts {
     for _ in 0..50 {
         let mut g = Gen::new(r, sw.clone());
